@@ -109,6 +109,9 @@ func (w *world) stamp() map[string]bool {
 	files := map[string]bool{}
 	w.dirsBefore = map[string]bool{}
 	filepath.Walk(w.root, func(p string, info os.FileInfo, err error) error {
+		if err == nil && info.Mode()&os.ModeSymlink != 0 {
+			return nil // a link (fssymlink) is neither a file nor a directory of the world
+		}
 		if err == nil && !info.IsDir() {
 			os.Chtimes(p, verifSentinel, verifSentinel)
 			files[p] = true
@@ -123,6 +126,9 @@ func (w *world) stamp() map[string]bool {
 func (w *world) changes(before map[string]bool) (written, removed []string) {
 	now := map[string]bool{}
 	filepath.Walk(w.root, func(p string, info os.FileInfo, err error) error {
+		if err == nil && info.Mode()&os.ModeSymlink != 0 {
+			return nil
+		}
 		if err == nil && !info.IsDir() {
 			now[p] = true
 			if !info.ModTime().Equal(verifSentinel) {
@@ -1146,6 +1152,17 @@ func (w *world) exec1(line string) {
 		}
 		fmt.Fprintln(w.ann, "skipline")
 		fmt.Fprintln(w.out, "skipline")
+	case "fssymlink":
+		// fssymlink <target> <link>: <link> becomes a symbolic link to the directory <target> (both relative to
+		// the world's root); implementation-only worlds (the model's file system has no links)
+		target, link := w.abs(unhx(tok[1])), w.abs(unhx(tok[2]))
+		os.MkdirAll(target, 0o755)
+		os.MkdirAll(filepath.Dir(link), 0o755)
+		if err := os.Symlink(target, link); err != nil {
+			panic(err)
+		}
+		fmt.Fprintln(w.ann, "skipline")
+		fmt.Fprintln(w.out, "skipline")
 	case "fsrm":
 		p := w.abs(unhx(tok[1]))
 		os.Remove(p)
@@ -1155,7 +1172,7 @@ func (w *world) exec1(line string) {
 		var items []string
 		var paths []string
 		filepath.Walk(w.root, func(p string, info os.FileInfo, err error) error {
-			if err == nil && !info.IsDir() {
+			if err == nil && !info.IsDir() && info.Mode()&os.ModeSymlink == 0 {
 				paths = append(paths, p)
 			}
 			return nil
